@@ -21,6 +21,8 @@ HARNESS = os.path.join(VERIF, "harness")
 EVIDENCE = os.path.join(VERIF, "evidence")
 CFG = "incan_verif"
 ALT = None
+# build_harness adds --cfg incan_verif_gates itself when the LSP gate hook is in the repository
+C18_GATES_IN_RUSTFLAGS = True
 
 
 def _setup_alt():
@@ -129,7 +131,11 @@ def build_harness(profile="debug"):
         cmd = ["cargo", "build", "--offline", "--quiet"]
         if profile == "release":
             cmd.append("--release")
-        env = {"RUSTFLAGS": "--cfg %s --check-cfg=cfg(%s) -Awarnings" % (CFG, CFG)}
+        flags = "--cfg %s --check-cfg=cfg(%s) -Awarnings" % (CFG, CFG)
+        if os.path.exists(os.path.join(REPO, "src", "lsp", "verif_gate.rs")):
+            # the LSP gate hook is present in the repository under test: compile the gated C18 driver
+            flags += " --cfg incan_verif_gates --check-cfg=cfg(incan_verif_gates)"
+        env = {"RUSTFLAGS": flags}
         t0 = time.time()
         rc, out, err = sh(cmd, cwd=HARNESS, env=env, timeout=3000)
         if rc != 0 and "Cargo.lock" in err:
